@@ -89,7 +89,9 @@ func (bi *BulkInserter) SetResultHandler(handler ResultHandler) {
 
 // UpdateOrDelete runs update or delete queries, which flushes pending records first.
 func (bi *BulkInserter) UpdateOrDelete(fn func()) {
-	bi.executor.Flush()
+	// not only Flush: records handed to the background flusher or being flushed
+	// by another goroutine are pending as well.
+	bi.executor.Wait()
 	fn()
 }
 
@@ -105,7 +107,9 @@ func (bi *BulkInserter) UpdateStmt(stmt string) error {
 
 	// with write lock, it doesn't matter what's the order of setting bi.stmt and calling flush.
 	bi.stmt = bkStmt
-	bi.executor.Flush()
+	// wait for the batches that are already on their way as well,
+	// they were formatted for the old statement.
+	bi.executor.Wait()
 	bi.executor.Sync(func() {
 		bi.inserter.stmt = bkStmt
 	})
